@@ -82,7 +82,8 @@ def validate_parallel(c, events, k=4):
             what = '%s: get_consensus(dove_safe=%s%s) after adding %s (%s) returned %s' % (
                 rej['clause'], ev.get('dove'), ', with_probs_and_obs=True' if ev.get('path') == 'probs' else '', ev.get('order'),
                 'same object queried before' if ev.get('requeried') else 'first query on a fresh molecule',
-                json.dumps(ev.get('consensus', ev.get('raised')))[:200])
+                json.dumps(ev.get('consensus', ev.get('raised', 'a %s of length %s (first element: %s)' % (
+                    ev.get('rtype'), ev.get('rlen'), ev.get('first_type')))))[:200])
             c.violation(key, what, {'event': ev, 'mol': mol, 'clause': rej['clause'], 'line': lo + rej['line']})
         n_rejects += len(r['rejects'])
         for n in r['notes']:
